@@ -82,10 +82,12 @@ type nexter interface{ Next() interface{} }
 // groupBy(n, xs): every n (64 bit), every length 0..L, symbolic elements; both implementations.
 func GroupByPartition() {
 	L := vrt.IntRange(0, maxLen())
-	xs := make([]int, L)
-	for i := range xs {
-		xs[i] = vrt.Int()
+	spare := vrt.IntRange(0, 2) // spare capacity behind the slice (a sub-slice of a longer one): not part of xs
+	base := make([]int, L+spare)
+	for i := range base {
+		base[i] = vrt.Int()
 	}
+	xs := base[:L]
 	n := vrt.Int()
 	impl := vrt.Choice(3)
 	var it nexter
